@@ -4,6 +4,7 @@ package actor
 // Request / reply / Result on the real Engine, Registry and Response, plus a check of the response ids.
 
 import (
+	"runtime"
 	"fmt"
 	"strconv"
 	"strings"
@@ -204,6 +205,41 @@ func runRespHistory(t testing.TB, ops []string) string {
 				res += "!still-registered"
 			}
 			out = append(out, res)
+		case strings.HasPrefix(op, "ed"): // ed<n>: n rounds of a reply that races the deadline, each followed by a request with a generous timeout
+			n, _ := strconv.Atoi(op[2:])
+			func() {
+				// one P: the responder replies just before the deadline and keeps the processor until after it, so the
+				// requester is woken by the reply but runs only once its timer has fired as well
+				defer runtime.GOMAXPROCS(runtime.GOMAXPROCS(1))
+				slow := e.SpawnFunc(func(c *Context) {
+					switch m := c.Message().(type) {
+					case vUser:
+						if m.k < 0 {
+							time.Sleep(5 * time.Millisecond)
+							c.Respond(vUser{-1})
+							for start := time.Now(); time.Since(start) < 8*time.Millisecond; {
+							}
+						} else {
+							c.Respond(vUser{m.k})
+						}
+					}
+				}, "verifedge", WithID(strconv.Itoa(len(out))))
+				early, wrong := 0, 0
+				for i := 0; i < n; i++ {
+					_, _ = e.Request(slow, vUser{-1}, 9*time.Millisecond).Result() // either outcome is fine
+					start := time.Now()
+					v, err := e.Request(slow, vUser{i}, 5*time.Second).Result()
+					if err != nil {
+						if time.Since(start) < 5*time.Second {
+							early++ // an error before the timeout has passed
+						}
+					} else if u, ok := v.(vUser); !ok || u.k != i {
+						wrong++
+					}
+				}
+				<-e.Poison(slow).Done()
+				out = append(out, fmt.Sprintf("early=%d wrong=%d", early, wrong))
+			}()
 		case strings.HasPrefix(op, "ids"): // ids<n>: how many of n fresh response ids (drawn by 8 goroutines at once) collide
 			n, _ := strconv.Atoi(op[3:])
 			const G = 8
@@ -255,6 +291,7 @@ func TestVerifResp(t *testing.T) {
 		emit(fmt.Sprintf("corpus%d", i), strings.Split(s, ","))
 	}
 	emit("ids", []string{"ids" + strconv.Itoa(vgen.Scale(320000, 1600000))})
+	emit("edge", []string{"ed" + strconv.Itoa(vgen.Scale(12, 60)), "qi3", "rq", "rp0v4", "rs0"})
 	emit("conc", []string{"cc" + strconv.Itoa(vgen.Scale(16, 64)) + "x" + strconv.Itoa(vgen.Scale(400, 2000)), "qi5", "cc2x50", "qi9"})
 	r := vgen.NewRng(vgen.Seed())
 	n := vgen.Scale(150, 2500)
